@@ -227,12 +227,27 @@ ADD12 = {
  "C18": " A parser assigns every field on every accepting path; every maximum constant of a layout is compared.",
 }
 
+ADD13 = {
+ "C03": " Leaving matching mode puts the cursor back where matching began (also under this property).",
+ "C04": " Closing a UDP association twice - a handler or a library given the connection may close it before the server does - closes its channel once.",
+ "C08": " Every wrapped listener has a hand-off queue of its own; no module constructor hands out package-level storage.",
+ "C09": " A second Close of an association does nothing.",
+ "C10": " The pool is in the order the Caddyfile gives; every peer of every upstream is probed, taken from the upstream's own list.",
+ "C11": " On every failing path of provisioning the upstream holds as many peers as table references were taken; the peers probed come from the upstream's own list.",
+ "C13": " The matching buffer goes back to the pool once; prefetch does not call itself; a context stored into the connection is not cancelled after the hand-off.",
+ "C14": " The openvpn static key's accessors, evaluated for every key direction, return the quarter openvpn's key-direction table says; an rdp custom_info filter longer than the longest cookie hash.",
+ "C15": " A single optional module is loaded only where its raw field is set.",
+ "C16": " The module constructor hands out a fresh handler that shares no list with other instances.",
+ "C17": " The context a throttled connection waits on is not cancelled by the function that handed the connection on.",
+ "C18": " The longest winbox auth message is the format's figure (293 bytes), and the package constant agrees with it.",
+}
+
 checks = []
 for p in props:
     if p["id"] not in CLAIMS:
         continue
     tech, text, ref = CLAIMS[p["id"]]
-    text = text + ADD6.get(p["id"], "") + ADD7.get(p["id"], "") + ADD8.get(p["id"], "") + ADD9.get(p["id"], "") + ADD10.get(p["id"], "") + ADD11.get(p["id"], "") + ADD12.get(p["id"], "")
+    text = text + ADD6.get(p["id"], "") + ADD7.get(p["id"], "") + ADD8.get(p["id"], "") + ADD9.get(p["id"], "") + ADD10.get(p["id"], "") + ADD11.get(p["id"], "") + ADD12.get(p["id"], "") + ADD13.get(p["id"], "")
     checks.append({
         "property_id": p["id"],
         "quick_cmd": "./run.sh %s quick" % p["id"],
